@@ -8,6 +8,9 @@ from sa.rules import parserrules as P, units
 
 
 def check(ix, rep):
+    from sa.rules import round11 as _r11
+    rep.floor('integer literal conversions with a base', _r11.check_literal_bases(ix, rep), 2)
+    rep.floor('setters of the specification text', _r11.check_text_setters(ix, rep), 1)
     grammars = G.load(ix.repo)
     for n in grammars:
         rep.unit('rtamt/antlr/grammar/tl/%s.g4' % n)
